@@ -1,0 +1,16 @@
+//go:build verif
+
+package tubes
+
+import "time"
+
+// VerifRTT is the tube sender's current round-trip estimate (the reaper keeps the identifier of a
+// locally opened reliable tube reserved for four times this long after the tube is closed).
+func (r *Reliable) VerifRTT() time.Duration {
+	r.l.Lock()
+	defer r.l.Unlock()
+	return r.sender.RTT
+}
+
+// VerifIDParity is the parity of the identifiers this muxer hands out.
+func (m *Muxer) VerifIDParity() byte { return m.idParity }
